@@ -249,6 +249,14 @@ fn structured() -> impl Strategy<Value = Case> {
     let name = prop_oneof![
         6 => proptest::sample::select(vec!["milk", "tuna", "chunk light tuna", "salt", "sea salt", "Öl", "a", "b", "x y", "", "dairy", "[x", "y]"]).prop_map(|s| s.to_string()),
         1 => "[a-z]{1,4}".prop_map(|s| s),
+        // long names (lengths around the powers of two up to 300 bytes), few distinct ones so that they collide
+        1 => (proptest::sample::select(vec![31usize, 32, 33, 63, 64, 65, 127, 128, 129, 255, 256, 300]), proptest::sample::select(vec!["x", "é", "ab "])).prop_map(|(n, unit)| {
+            let mut s = String::new();
+            while s.len() < n {
+                s.push_str(unit);
+            }
+            s.trim().to_string()
+        }),
     ];
     let pad = proptest::sample::select(vec!["", " ", "  ", "\t", "\u{a0}", " \t "]);
     let ingredient = proptest::collection::vec((pad.clone(), name.clone(), pad.clone()), 1..4).prop_map(|v| v.into_iter().map(|(a, n, b)| format!("{a}{n}{b}")).collect::<Vec<_>>().join("|"));
